@@ -140,6 +140,20 @@ func determVariants(cfg engineCfg, src string, env map[string]*V, g *RNG) []dete
 		add(fmt.Sprintf("map-construction-order#%d", i), func() string { out, err := tpl0.Render(b); return cfg.oneResult(out, err, false) })
 	}
 	add("repeat-render#5", func() string { out, err := tpl0.Render(envs[0]); return cfg.oneResult(out, err, false) })
+	// earlier activity on the SAME parsed template with OTHER bindings (which mostly make the render fail part-way:
+	// every variable a string that is no number, then no variable at all) must not show in a later render
+	{
+		other := map[string]any{}
+		for k := range envs[0] {
+			other[k] = "zz"
+		}
+		protect(func() string { tpl0.Render(other); tpl0.RenderString(map[string]any{}); tpl0.Render(other); return "" })
+		add("repeat-render-after-other-bindings#1", func() string { out, err := tpl0.Render(envs[0]); return cfg.oneResult(out, err, false) })
+		add("repeat-render-after-other-bindings#2", func() string {
+			out, err := tpl0.RenderString(envs[1])
+			return cfg.oneResult([]byte(out), err, false)
+		})
+	}
 	add("fresh-parse#1", func() string { return render(e0, envs[1]) })
 	add("fresh-parse#2", func() string { return render(e0, envs[2]) })
 	add("fresh-engine#1", func() string { return render(cfg.newEngine(), envs[3]) })
